@@ -122,6 +122,16 @@ func (x *world) body(t *f1testing.T) {
 		vrt.WaitUntil("barrier", func() bool { return x.entered >= need })
 	case "yield":
 		vrt.Yield()
+	case "cleanup-fails-then-barrier":
+		// the first iteration's cleanup fails (a failed teardown of one iteration); afterwards all
+		// workers must still be able to execute at the same time
+		if myIdx == 0 {
+			t.Cleanup(func() { t.Fail() })
+		} else {
+			x.entered++
+			need := int64(x.c.workers)
+			vrt.WaitUntil("barrier-after-failed-cleanup", func() bool { return x.entered >= need })
+		}
 	case "first-waits-for-last":
 		// one slow iteration: the first one started does not finish before the last allowed one has begun,
 		// so the other workers have to run everything in between (and, in users mode, keep going)
@@ -602,6 +612,8 @@ func scenariosFor(tier string) []vrt.Scenario {
 	case "C04":
 		// a slow first iteration: the other workers take everything that is left, up to the limit
 		addDelay(2, cfg{kind: "continuous", workers: 2, limit: 6, gate: "first-waits-for-last"})
+		addDelay(1, cfg{kind: "continuous", workers: 2, limit: 5, gate: "cleanup-fails-then-barrier"})
+		addDelay(1, cfg{kind: "trigger", workers: 2, limit: 5, ticks: q(1, 4), gate: "cleanup-fails-then-barrier", stop: "limit"})
 		addDelay(1, cfg{kind: "continuous", workers: 3, limit: 12, gate: "first-waits-for-last"})
 		addDelay(1, cfg{kind: "trigger", workers: 2, limit: 5, ticks: q(7), gate: "first-waits-for-last", stop: "limit"})
 		plain(1, true, cfg{kind: "trigger", workers: 2, ticks: q(2), gate: "barrier", stop: "cancel-q"})
